@@ -372,6 +372,38 @@ def _check_handler(prog, res, f, h, seen):
             if isinstance(n, ast.If) and isinstance(n.test, ast.Name) and n.test.id in flags:
                 if _requests_failed(prog, f, n.body) and terminates(n.body):
                     fails = True
+    if not fails:
+        # sentinel idiom: the handler leaves None as the result, the result is appended to a
+        # list of results whatever it is, and `any(r is None for r in results)` fails the
+        # workflow afterwards
+        fg_s = FuncGuards(prog, f)
+        sent = [t.id for s in h.body if isinstance(s, ast.Assign) and isinstance(
+            s.value, ast.Constant) and s.value.value is None for t in s.targets
+                if isinstance(t, ast.Name)]
+        try_stmt = getattr(h, "_parent", None)
+        base = set(fg_s.atoms(try_stmt)) if try_stmt is not None else set()
+        lists_ = set()
+        for c in ast.walk(f.node):
+            if isinstance(c, ast.Call) and callee_name(c) == "append" and isinstance(
+                    c.func, ast.Attribute) and isinstance(c.func.value, ast.Name) and c.args \
+                    and isinstance(c.args[0], ast.Name) and c.args[0].id in sent and \
+                    set(fg_s.atoms(c)) <= base and try_stmt is not None and \
+                    try_stmt._ord < c._ord:
+                lists_.add(c.func.value.id)
+        for n in ast.walk(f.node):
+            if isinstance(n, ast.If) and isinstance(n.test, ast.Call) and \
+                    callee_name(n.test) == "any" and n.test.args and isinstance(
+                        n.test.args[0], (ast.GeneratorExp, ast.ListComp)):
+                g = n.test.args[0]
+                gen = g.generators[0]
+                if len(g.generators) == 1 and not gen.ifs and isinstance(gen.iter, ast.Name) \
+                        and gen.iter.id in lists_ and isinstance(g.elt, ast.Compare) and \
+                        len(g.elt.ops) == 1 and isinstance(g.elt.ops[0], ast.Is) and \
+                        isinstance(g.elt.comparators[0], ast.Constant) and \
+                        g.elt.comparators[0].value is None and \
+                        unparse(g.elt.left) == unparse(gen.target):
+                    if _requests_failed(prog, f, n.body) and terminates(n.body):
+                        fails = True
     if not (logs and fails) and h.name:
         # collector idiom: the handler puts the exception into a list that is consumed later
         # by 'if <errors>: log_errors(...); request failed'
